@@ -1,7 +1,7 @@
 /-
-  Link of `Session.refused` / `Session.blockFails` (agent e2e; coarser by design - no panics, no refusal reasons, no Z)
-  to the reference admission model `FluteModel/Admission.lean`.  Separate from `Props/AdmissionLink.lean` because it has
-  to follow every edit of `Session.lean`.
+  Link of `Session.refusedFull` / `Session.refused` / `Session.blockFails` (agent e2e; coarser by design - no panics,
+  no refusal reasons, no Z) to the reference admission model `FluteModel/Admission.lean`.  Separate from
+  `Props/AdmissionLink.lean` because it has to follow every edit of `Session.lean`.
 -/
 import FluteModel.Props.AdmissionLink
 import FluteModel.Session
@@ -11,61 +11,75 @@ open Flute Flute.Admission
 def fecOf : Session.Scheme → Fec
   | .nocode => .noCode | .rs => .rs28 | .rsus => .rs28us | .raptorq => .raptorq | .raptor => .raptor
 
-/-- **`Session.refused` ⇔ the reference refuses**, on the domain of e2e's model: one of its five schemes, no
-    `usize` overflow in `max_transfer_length` (`hm`: the two `usize` products of `max_transfer_length` do not overflow, then both
-    models compute min(cap, E*B*max_sbn); where they overflow the real code panics - `PANIC` in the correspondence -
-    and e2e's model, on unbounded naturals, has no such outcome),
-    scheme-specific parameters present for Raptor / RaptorQ, `aLarge` = the partition's `a_large`. -/
+/-- what e2e's Boolean says about an outcome of the reference -/
+def agrees (x : Rs (Except Refuse Oti)) (refused : Bool) : Prop :=
+  match x with
+  | .ok (.error _) => refused = true
+  | .ok (.ok _) => refused = false
+  | .error _ => False
+
+/-- **`Session.refusedFull` ⇔ the reference refuses**, on the domain of e2e's model: one of its five schemes,
+    scheme-specific parameters present for Raptor / RaptorQ, `(aLarge, aSmall, nL, n)` = the partition, and `hm`: the
+    reference's `max_transfer_length` is e2e's min(cap, E*B*max_sbn) (true whenever the saturating products do not
+    saturate; where they do both are capped anyway - see the example below). -/
 theorem session_refused_link (sch : Session.Scheme) (e b p tl : Nat) (sc : Option SchemeSpecific)
     (q : Partition.Quad) (hbp : Partition.blockPartitioning b tl e = .ok q)
     (hm : maxTransferLength ⟨fecOf sch, 0, b, e, p, sc⟩ = .ok (Session.maxTransferLength sch e b))
     (hsc : (sch = .raptorq ∨ sch = .raptor) → sc.isSome = true) :
-    ∃ r, fileDescNew ⟨fecOf sch, 0, b, e, p, sc⟩ none tl = .ok r ∧
-      (Session.refused sch e b p tl q.1 = true ↔ ∃ why, r = .error why) := by
+    agrees (fileDescNew ⟨fecOf sch, 0, b, e, p, sc⟩ none tl)
+      (Session.refusedFull sch e b p tl q.1 q.2.1 q.2.2.1 q.2.2.2) := by
   have hu := tooManyBlocks_unreachable ⟨fecOf sch, 0, b, e, p, sc⟩ none tl
   rw [fileDescNew_eq] at hu ⊢
   have h2m : fecOf sch ≠ .rs2m := by cases sch <;> simp [fecOf]
   simp only [chosen, hm, h2m, ↓reduceIte] at hu ⊢
   by_cases hL : tl > Session.maxTransferLength sch e b
-  · simp only [hL, ↓reduceIte]
-    exact ⟨_, rfl, by simp [Session.refused, hL]⟩
+  · simp [hL, agrees, Session.refusedFull, Session.refused]
   simp only [hL, ↓reduceIte] at hu ⊢
+  rw [fileDescTail_eq] at hu ⊢
   cases sch <;>
-    simp only [tailA, fecOf, reduceCtorEq, or_self, or_false, or_true, false_or, false_and, true_and, ↓reduceIte, hbp,
-      maxBlockSymbols, Session.refused, Session.kMax, hL, decide_false, Bool.false_or, Bool.or_false, beq_self_eq_true,
-      Bool.true_and, Bool.false_and, Bool.and_false, Bool.or_self] at hu hsc ⊢
-  · exact ⟨_, rfl, by simp⟩
-  · by_cases hp : p = 0
-    · simp only [hp, ↓reduceIte]; exact ⟨_, rfl, by simp⟩
-    · by_cases hk : q.1 + p > 256
-      · simp only [hp, hk, ↓reduceIte]; exact ⟨_, rfl, by simp [hp, hk]⟩
-      · simp only [hp, hk, ↓reduceIte]; exact ⟨_, rfl, by simp [hp, hk]⟩
-  · by_cases hp : p = 0
-    · simp only [hp, ↓reduceIte]; exact ⟨_, rfl, by simp⟩
-    · by_cases hk : q.1 + p > 256
-      · simp only [hp, hk, ↓reduceIte]; exact ⟨_, rfl, by simp [hp, hk]⟩
-      · simp only [hp, hk, ↓reduceIte]; exact ⟨_, rfl, by simp [hp, hk]⟩
-  · have hs : sc.isNone = false := by cases sc <;> simp_all
-    by_cases hk : q.1 > 56403
-    · simp only [hk, ↓reduceIte]; exact ⟨_, rfl, by simp [hk]⟩
-    · by_cases hz : q.2.2.2 > 255
-      · simp [hk, hs, hz] at hu
-      · simp only [hk, hs, hz, ↓reduceIte, Bool.false_eq_true]; exact ⟨_, rfl, by simp [hk]⟩
-  · have hs : sc.isNone = false := by cases sc <;> simp_all
-    by_cases hk : q.1 > 8192
-    · simp only [hk, ↓reduceIte]; exact ⟨_, rfl, by simp [hk]⟩
-    · by_cases hz : q.2.2.2 > 65535
-      · simp [hk, hs, hz] at hu
-      · simp only [hk, hs, hz, ↓reduceIte, Bool.false_eq_true]; exact ⟨_, rfl, by simp [hk]⟩
+    simp only [fecOf, rsChecks, raptorTail, reduceCtorEq, or_self, or_false, or_true, false_or, false_and, true_and,
+      ↓reduceIte, hbp, maxBlockSymbols, Session.refusedFull, Session.refused, Session.kMax, hL, decide_false,
+      Bool.false_or, Bool.or_false, beq_self_eq_true, Bool.true_and, Bool.false_and, Bool.and_false, Bool.or_self,
+      Bool.and_self, forall_const] at hu hsc ⊢
+  · simp [agrees]
+  · by_cases hp : p = 0 <;> by_cases hf : b + p > 255 <;> by_cases hk : q.1 + p > 255 <;>
+      simp [agrees, hp, hf, hk] <;> omega
+  · by_cases hp : p = 0 <;> by_cases hf : b + p > 65535 <;> by_cases hk : q.1 + p > 255 <;>
+      simp [agrees, hp, hf, hk] <;> omega
+  · have hs : ¬ sc = none := by cases sc <;> simp_all
+    by_cases hk : 56403 < q.1
+    · simp [agrees, hk]
+    by_cases hz : 255 < q.2.2.2
+    · simp [hk, hs, hz] at hu
+    · simp [agrees, hk, hs, hz]
+  · have hs : ¬ sc = none := by cases sc <;> simp_all
+    by_cases hk : 8192 < q.1
+    · simp [agrees, hk]
+    by_cases hsm : (0 < q.2.2.1 ∧ (q.1 = 2 ∨ q.1 = 3)) ∨ (q.2.2.1 < q.2.2.2 ∧ (q.2.1 = 2 ∨ q.2.1 = 3))
+    · simp only [hk, hsm, ↓reduceIte, agrees]
+      rcases hsm with ⟨h1, h2⟩ | ⟨h1, h2⟩ <;> rcases h2 with h2 | h2 <;> simp [h1, h2]
+    by_cases hz : 65535 < q.2.2.2
+    · simp [hk, hs, hz, hsm] at hu
+    · simp only [hk, hsm, hs, hz, ↓reduceIte, agrees]
+      simp only [not_or, not_and] at hsm
+      simp [hk]
+      by_cases h1 : 0 < q.2.2.1 <;> by_cases h2 : q.2.2.1 < q.2.2.2 <;> simp_all <;> omega
 
-/-- `hm` is met wherever nothing overflows, e.g. -/
+/-- `hm` holds for ordinary parameters, e.g. -/
 example : maxTransferLength ⟨fecOf .rs, 0, 64, 1024, 2, none⟩ = .ok (Session.maxTransferLength .rs 1024 64) := rfl
 
-/-- consequence in e2e's vocabulary: no block of an admitted RS / RaptorQ / No-Code object "fails" -/
+/-- consequence in e2e's vocabulary: no block of an admitted RS / RaptorQ / No-Code object "fails" (`blockFails`
+    models the crate: `k + p > 256`; admission is stricter, 255) -/
 theorem admitted_blocks_never_fail (sch : Session.Scheme) (p aLarge k : Nat) (hk1 : 1 ≤ k) (hk2 : k ≤ aLarge)
-    (hrs : (sch = .rs ∨ sch = .rsus) → 1 ≤ p ∧ aLarge + p ≤ 256)
+    (hrs : (sch = .rs ∨ sch = .rsus) → 1 ≤ p ∧ aLarge + p ≤ 255)
     (hrq : sch = .raptorq → aLarge ≤ 56403) (hnot : sch ≠ .raptor) :
     Session.blockFails sch k p = false := by
   cases sch <;> simp_all [Session.blockFails, Session.kMax] <;> omega
+
+/-- ... and since /repo 42b2a1c also none of an admitted Raptor object, given that the block size is one the
+    partition uses and is not 2 or 3 (`admitted_raptor_blocks`) -/
+theorem admitted_raptor_block_never_fails (p aLarge k : Nat) (hk2 : k ≤ aLarge) (hk : aLarge ≤ 8192)
+    (h23 : k ≠ 2 ∧ k ≠ 3) : Session.blockFails .raptor k p = false := by
+  simp [Session.blockFails, Session.kMax]; omega
 
 end Flute.Props.C01.Admission
